@@ -820,6 +820,9 @@ NAMESAKE_EXC = {
 }
 
 
+NAMESAKE_MIX_OK = {}  # (target struct, field) -> reason, for fields that are legitimately computed from several like-named inputs
+
+
 def namesake_plumbing(ctx, prog, path_regex, min_sites, label):
     """Every struct built (outside tests) in bodies matching path_regex that fills a field from a like-named field / getter /
     parameter of its inputs fills EACH such field from its own namesake: `select_timeout: config.confirm_timeout` type-checks
@@ -847,6 +850,9 @@ def namesake_plumbing(ctx, prog, path_regex, min_sites, label):
                     ctx.ok("%s@%s:%s.%s" % (label, short(bd.path), tname, fname), "listed exception: " + NAMESAKE_EXC[(tname, fname)], bd.where(b.idx))
                     continue
                 ctx.check(fname in m, "%s@%s:%s.%s" % (label, short(bd.path), tname, fname), "%s <- %s" % (fname, expr_str(fe)[:60]), bd.where(b.idx), bad_detail="field `%s` of %s is filled from `%s` (%s), not from its namesake" % (fname, tname, ",".join(sorted(m)), expr_str(fe)[:80]))
+                if fname in m and len(m) > 1 and re.search(r"(Config|Parameters|Settings|Features)$", tname) and (tname, fname) not in NAMESAKE_MIX_OK:
+                    # ...and from its namesake ALONE: `retry_delay: cfg.retry_delay.min(cfg.confirm_timeout)` silently couples two settings
+                    ctx.bad("%s-mix@%s:%s.%s" % (label, short(bd.path), tname, fname), "field `%s` of %s is computed from its namesake AND from sibling setting(s) %s (%s): two independent settings are coupled" % (fname, tname, sorted(m - {fname}), expr_str(fe)[:80]), bd.where(b.idx))
     # near-namesakes: a field filled directly from `input.f` although a sibling field `input.g` matches its name better
     # (sol_tx_buffer_size <- unsolicited_buffer_size where solicited_buffer_size exists)
     def toks(x):
